@@ -13,7 +13,7 @@ ARGS = ["a0", "a1", "a2", "a3", "a4", "a5", "a6", "a7"]
 ARITH = ["add", "addw", "and", "or", "sll", "sllw", "slt", "sltu", "sra", "sraw", "srl", "srlw", "sub",
          "xor", "mul", "mulh", "mulhsu", "mulhu", "div", "divu", "divw", "rem", "remu", "remw", "remuw"]
 IARITH = ["addi", "addiw", "andi", "ori", "slli", "slliw", "slti", "sltiu", "srai", "sraiw", "srli",
-          "srliw", "xori", "auipc"]
+          "srliw", "xori"]
 BRANCH = ["beq", "bge", "bgeu", "blt", "bltu", "bne"]
 LOAD = ["lb", "lbu", "lh", "lhu", "lw", "lwu"]
 STORE = ["sb", "sh", "sw"]
@@ -23,7 +23,7 @@ PSEUDO_RR = ["mv", "neg", "not", "seqz", "snez", "sgtz", "sltz"]
 PSEUDO_RL = ["beqz", "bnez", "bltz", "bgez", "bgtz", "blez", "sgez"]
 PSEUDO_RRL = ["bgt", "ble", "bgtu", "bleu"]
 ALL_MNEMONICS = (ARITH + IARITH + BRANCH + LOAD + STORE + CSR + CSRI + PSEUDO_RR + PSEUDO_RL +
-                 PSEUDO_RRL + ["lui", "jal", "jalr", "ret", "ebreak", "ecall", "nop", "fence", "fencei",
+                 PSEUDO_RRL + ["lui", "auipc", "jal", "jalr", "ret", "ebreak", "ecall", "nop", "fence", "fencei",
                                "j", "jr", "la", "li", "b", "call", "csrc", "csrr", "csrs", "csrw",
                                "csrci", "csrsi", "csrwi", "uret"])
 CSR_NAMES = ["ustatus", "fflags", "frm", "fcsr", "uie", "utvec", "uscratch", "uepc", "ucause", "utval",
@@ -83,7 +83,7 @@ def statement(rng, m=None):
         ops = [r(), l()]
     elif m in PSEUDO_RRL:
         ops = [r(), r(), l()]
-    elif m == "lui":
+    elif m in ("lui", "auipc"):
         ops = [r(), i()]
     elif m == "jal":
         ops = rng.choice([[l()], [r(), l()]])
